@@ -30,7 +30,7 @@ ASSUMPTIONS = ["when a new-date notification must be sent is not stated by the p
                "episodes aborted by TrackRecord's duplicate-timestamp rejection (DESIGN 4.2-c) are judged on the delivered prefix"]
 REQUIRED = ["C04:delivery-sequence", "C04:second-observer", "C04:timestamps-nondecreasing", "C04:env-notification-stamp",
             "C04:clock-in-callback", "C04:rebalance-stamp", "C04:latency-refused"]
-REQUIRED_CATS = ["latency>0", "markov", "warmup", "late-fold", "episode-length", "event-after-grid", "event-before-grid",
+REQUIRED_CATS = ["add_timesteps", "add_custom_events", "latency>0", "markov", "warmup", "late-fold", "episode-length", "event-after-grid", "event-before-grid",
                  "event-at-latency-bound"]
 REQUIRED_HITS = ["Broker.rebalance"]
 TECHNIQUE = "runtime monitoring: recording observer + hook markers compared with an independent delivery-schedule model"
@@ -107,8 +107,32 @@ def case(ctx, i, tier):
     gin = grid[:]
     rng.shuffle(gin)
     gin += [grid[0]]
-    tr = Transmitter(gin, folds, markov, warm)
-    tr.add_events(evs)
+    # the three public ways of feeding a Transmitter: constructor timesteps +
+    # add_timesteps, add_events, add_custom_events (rows of a DataFrame)
+    nsplit = rng.randint(1, len(gin))
+    tr = Transmitter(gin[:nsplit], folds, markov, warm)
+    if nsplit < len(gin):
+        tr.add_timesteps(gin[nsplit:])
+        ctx.cat("add_timesteps")
+    if rng.random() < 0.3 and evs and isinstance(evs[-1], (ep.EvA, ep.EvB, ep.EvC)):
+        # the trailing run of custom events of one class goes through add_custom_events
+        cls = type(evs[-1])
+        j = len(evs)
+        while j > 0 and type(evs[j - 1]) is cls:
+            j -= 1
+        tail = evs[j:]
+        tr.add_events(evs[:j])
+        import pandas as pd
+        df = pd.DataFrame({"uid": [e.uid for e in tail], "v": [e.v for e in tail]},
+                          index=pd.DatetimeIndex([e.time for e in tail]))
+        tr.add_custom_events(df, cls)
+        made = tr.events[-len(tail):]
+        for e_old, e_new in zip(tail, made):
+            e_new.time = e_old.time        # keep python datetimes (the index yields Timestamps of equal value)
+        evs = evs[:j] + list(made)
+        ctx.cat("add_custom_events")
+    else:
+        tr.add_events(evs)
     eplen = rng.choice([None, None, None, 1, 2, 3])
     sink, sink2 = ep.Sink(), ep.Sink()
     env = TradingEnv(action_space=BoxPortfolio([ETF("X"), ETF("Y")]), transmitter=tr,
